@@ -130,7 +130,13 @@ func (vs *ValidatorStore) ExecuteAllegationTracker(ctx *ValidatorContext, active
 	addrToDelete := make([]string, 0)
 	//processedValidators := make(map[string]bool)
 	ctx.EvidenceStore.CleanTracker()
+	// requests are processed in a fixed order: the loop writes state and map iteration is random
+	requestIDs := make([]string, 0, len(at.Requests))
 	for requestID := range at.Requests {
+		requestIDs = append(requestIDs, requestID)
+	}
+	sort.Strings(requestIDs)
+	for _, requestID := range requestIDs {
 		ar, err := ctx.EvidenceStore.GetAllegationRequest(requestID)
 		decisionMade := false
 		if err != nil {
